@@ -430,6 +430,38 @@ EOF_SNIPS = [
     "x = 1; y = 2\n",
     "@dec\ndef d1():\n    return 7000\n",
     "type X = int\n",
+    # ill-typed constant expressions, unusual identifiers and layouts
+    "if 7000 < 'a':\n    a()\n",
+    "y = 7000 < 'a' and x\n",
+    "z = [i for i in range(7000) if i < 'a']\n",
+    'while None < 7000:\n    a()\n',
+    "assert 7000 < 'a'\n",
+    "y = 'a' - 7000 if x else 0\n",
+    "if not 'a' < 7000:\n    a()\n",
+    'y = x if 7000 in 5 else 1\n',
+    'é = 7000\nb(é)\n',
+    'naïveValue = 7000\nb(naïveValue)\n',
+    'def café(x):\n    return x\n\n\nb(café(7000))\n',
+    'class Ñandú:\n    pass\n',
+    'if x:\n    a()\nelse :\n    b()\n',
+    'if x :\n    a()\nelif  y :\n    b()\nelse:\n    pass\n',
+    "import logging\nlogging.info(f'{x:<{y}}')\n",
+    "import logging\nlogging.info(f'{x!r:>10} {y}')\n",
+    "logger.log(7000, f'{x:{y}.{c}f}')\n",
+    'lambda_ = lambda *a, **k: (a, k)\n',
+    'x = [\n    7000,\n    7001,  # c\n]\n',
+    "s = 'a\\\\b' 'c'\n",
+    "s = b'\\x00' * 7000\n",
+    "s = '''multi\nline'''\n",
+    "f'{x=}'\n",
+    'x = 0x10 + 0o7 + 0b1 + 1_000\n',
+    'x = 7000 if x else 7001 if y else 7002\n',
+    'for i in range(7000): pass\n',
+    'if x: a()\nelse: b()\n',
+    'while x: x -= 1\n',
+    "x = 7000 == 'a'\n",
+    'if 7000 != None:\n    a()\n',
+    'y = [] < 7000 or x\n',
 ]
 
 
